@@ -366,7 +366,7 @@ func checkWeakKeyStatus(c *km.Ctx, s *km.Sem) {
 		}
 		cl, i := callRes(f.X)
 		if f.Op == token.NEQ && km.IsNilConst(f.Y) && cl != nil && i == 1 {
-			if g := km.StaticCallee(cl.Common()); g != nil && g.Blocks != nil && g.Pkg != nil && g.Pkg.Pkg.Path() == KMD && isConv(g) && reachesValidate(c, g) {
+			if g := km.StaticCallee(cl.Common()); g != nil && g.Blocks != nil && g.Pkg != nil && pkgIsKMD(g.Pkg) && isConv(g) && reachesValidate(c, g) {
 				return true
 			}
 		}
@@ -423,7 +423,7 @@ func checkWeakKeyStatus(c *km.Ctx, s *km.Sem) {
 	}
 	n := 0
 	for _, fn := range c.P.AllFuncs {
-		if fn.Pkg == nil || fn.Pkg.Pkg.Path() != KMD || !isConvention(fn) || fn.Blocks == nil {
+		if fn.Pkg == nil || !pkgIsKMD(fn.Pkg) || !isConvention(fn) || fn.Blocks == nil {
 			continue
 		}
 		refusal := func(f km.Fact) bool {
@@ -432,7 +432,7 @@ func checkWeakKeyStatus(c *km.Ctx, s *km.Sem) {
 			}
 			cl, i := callRes(f.X)
 			if f.Op == token.NEQ && km.IsNilConst(f.Y) && cl != nil && i == 1 {
-				if g := km.StaticCallee(cl.Common()); g != nil && g.Pkg != nil && g.Pkg.Pkg.Path() == KMD && isConvention(g) && reachesValidate(c, g) {
+				if g := km.StaticCallee(cl.Common()); g != nil && g.Pkg != nil && pkgIsKMD(g.Pkg) && isConvention(g) && reachesValidate(c, g) {
 					return true
 				}
 			}
@@ -623,7 +623,7 @@ func checkDecoderPanics(c *km.Ctx, s *km.Sem) {
 		// helpers the decoders were split into (same package, not route handlers, not listed themselves)
 		for _, ci := range km.CallsIn(fn) {
 			g := km.StaticCallee(ci.Common())
-			if g == nil || g.Blocks == nil || g.Pkg == nil || g.Pkg.Pkg.Path() != KMD || isRoute[g] || listed[g] || scope[g] {
+			if g == nil || g.Blocks == nil || g.Pkg == nil || !pkgIsKMD(g.Pkg) || isRoute[g] || listed[g] || scope[g] {
 				continue
 			}
 			if !takesDecodable(g) {
@@ -631,7 +631,7 @@ func checkDecoderPanics(c *km.Ctx, s *km.Sem) {
 			}
 			scope[g] = true
 			for _, c2 := range km.CallsIn(g) {
-				if g2 := km.StaticCallee(c2.Common()); g2 != nil && g2.Blocks != nil && g2.Pkg != nil && g2.Pkg.Pkg.Path() == KMD && !isRoute[g2] && !listed[g2] && takesDecodable(g2) {
+				if g2 := km.StaticCallee(c2.Common()); g2 != nil && g2.Blocks != nil && g2.Pkg != nil && pkgIsKMD(g2.Pkg) && !isRoute[g2] && !listed[g2] && takesDecodable(g2) {
 					scope[g2] = true
 				}
 			}
